@@ -40,6 +40,39 @@ ASSUMPTIONS = [
 DYNAMIC = ('globals()', 'exec(', 'eval(', 'setattr(', '__dict__', 'vars()', 'locals()')
 
 
+T_IMPL = 'cmd * list (N * list alt) * list N * list N'
+T_REF = 'cmd * list nat * trace'
+
+
+def guarded_cases(ctx, imports, prelude, fn, terms, shard, case_type, key):
+    """ctx.run_cases with a cost guard: the model's environments are closures, so a rare program (deeply
+    nested loops around try/finally) costs minutes to evaluate. When a shard exceeds its time budget the
+    cases are re-run in chunks of 10 and then singly; a single case that still exceeds 10 s (+ one retry
+    with 40 s) is skipped and counted in coverage[<key>_cases_skipped_for_cost] - never reported."""
+    try:
+        return ctx.run_cases(imports, prelude, fn, terms, case_type=case_type, shard=shard, timeout=60)
+    except RuntimeError as e:
+        if 'rc=124' not in str(e):
+            raise
+    bad, skipped = [], 0
+    for off in range(0, len(terms), 10):
+        chunk = terms[off:off + 10]
+        try:
+            bad += [off + i for i in ctx.run_cases(imports, prelude, fn, chunk, case_type=case_type, shard=10, timeout=25)]
+        except RuntimeError as e:
+            if 'rc=124' not in str(e):
+                raise
+            for j, t in enumerate(chunk):
+                try:
+                    bad += [off + j for _ in ctx.run_cases(imports, prelude, fn, [t], case_type=case_type, shard=1, timeout=10)]
+                except RuntimeError as e2:
+                    if 'rc=124' not in str(e2):
+                        raise
+                    skipped += 1
+    ctx.coverage[key + '_cases_skipped_for_cost'] = ctx.coverage.get(key + '_cases_skipped_for_cost', 0) + skipped
+    return sorted(bad)
+
+
 def part_a(ctx):
     """one scope, any exits"""
     cov = ctx.coverage
@@ -96,9 +129,9 @@ def part_a(ctx):
         seen.add((i, what))
         body, scope = trees[i]
         ctx.violation(what, {'kind': 'direct-A', 'scope': scope, 'tree': body, 'source': src_of.get(id(body)) or pygen.render_plain(body, scope)[0], 'layout_seed': lay_of.get(id(body)), 'decisions': eff})
-    bad_i = ctx.run_cases(rc.IMPORTS, rc.CHECK_PRELUDE, 'check_implx', impl_terms, shard=150)
-    bad_r = ctx.run_cases(rc.IMPORTS, rc.CHECK_PRELUDE, 'check_refX', ref_terms, shard=400)
-    bad_v = ctx.run_cases(rc.IMPORTS, rc.CHECK_PRELUDE, 'check_visible_instance', ref_terms, shard=400)
+    bad_i = guarded_cases(ctx, rc.IMPORTS, rc.CHECK_PRELUDE, 'check_implx', impl_terms, 150, T_IMPL, 'A')
+    bad_r = guarded_cases(ctx, rc.IMPORTS, rc.CHECK_PRELUDE, 'check_refX', ref_terms, 400, T_REF, 'A')
+    bad_v = guarded_cases(ctx, rc.IMPORTS, rc.CHECK_PRELUDE, 'check_visible_instance', ref_terms, 400, T_REF, 'A')
     cov['A_programs'] = nprog
     cov['A_executions'] = len(ref_terms)
     cov['A_impl_disagreements'] = len(bad_i)
@@ -625,11 +658,11 @@ def part_d(ctx):
                         'instrumented': code, 'decisions': runs[-1][0], 'trace': runs[-1][1][:12]})
     for code, what, eff in rbad[:3]:
         ctx.violation(what, {'kind': 'harness-D', 'code': code, 'decisions': eff}, found_input=False)
-    bad = ctx.run_cases(rc.IMPORTS + ['Model.Nested', 'Model.NestedRun', 'Model.NestedCls', 'Model.NestedRunS', 'Model.NestedUsed'], NESTED_PRELUDE, 'check_nested', terms, shard=150)
-    bad_r = ctx.run_cases(rc.IMPORTS + ['Model.Nested', 'Model.NestedRun', 'Model.NestedCls', 'Model.NestedRunS', 'Model.NestedUsed'], NESTED_PRELUDE, 'check_chain', rterms, shard=300)
-    outside = ctx.run_cases(rc.IMPORTS + ['Model.Nested', 'Model.NestedRun', 'Model.NestedCls', 'Model.NestedRunS', 'Model.NestedUsed'], NESTED_PRELUDE, 'chain_okx', rterms, shard=300)
-    bad_s = ctx.run_cases(rc.IMPORTS + ['Model.Nested', 'Model.NestedRun', 'Model.NestedCls', 'Model.NestedRunS', 'Model.NestedUsed'], NESTED_PRELUDE, 'check_chain_sound', rterms, shard=300)
-    bad_u = ctx.run_cases(rc.IMPORTS + ['Model.Nested', 'Model.NestedRun', 'Model.NestedCls', 'Model.NestedRunS', 'Model.NestedUsed'], NESTED_PRELUDE, 'check_unused_chain', uterms, shard=150)
+    bad = guarded_cases(ctx, rc.IMPORTS + ['Model.Nested', 'Model.NestedRun', 'Model.NestedCls', 'Model.NestedRunS', 'Model.NestedUsed'], NESTED_PRELUDE, 'check_nested', terms, 150, 'list lvl * lvl * list (N * list alt) * list N', 'D')
+    bad_r = guarded_cases(ctx, rc.IMPORTS + ['Model.Nested', 'Model.NestedRun', 'Model.NestedCls', 'Model.NestedRunS', 'Model.NestedUsed'], NESTED_PRELUDE, 'check_chain', rterms, 300, 'list cmd * list nat * trace', 'D')
+    outside = guarded_cases(ctx, rc.IMPORTS + ['Model.Nested', 'Model.NestedRun', 'Model.NestedCls', 'Model.NestedRunS', 'Model.NestedUsed'], NESTED_PRELUDE, 'chain_okx', rterms, 300, 'list cmd * list nat * trace', 'D')
+    bad_s = guarded_cases(ctx, rc.IMPORTS + ['Model.Nested', 'Model.NestedRun', 'Model.NestedCls', 'Model.NestedRunS', 'Model.NestedUsed'], NESTED_PRELUDE, 'check_chain_sound', rterms, 300, 'list cmd * list nat * trace', 'D')
+    bad_u = guarded_cases(ctx, rc.IMPORTS + ['Model.Nested', 'Model.NestedRun', 'Model.NestedCls', 'Model.NestedRunS', 'Model.NestedUsed'], NESTED_PRELUDE, 'check_unused_chain', uterms, 150, 'list cmd * list N', 'D')
     cov['D_unused_chains_compared'] = len(uterms)
     cov['D_unused_disagreements'] = len(bad_u)
     if bad_u:
